@@ -49,5 +49,16 @@ def _h(tier_q, tier_t):
     hs += [HH(x) for x in q_serial] + [HH(x, conc=True) for x in q_conc]
     hs += [HH(x, chain=True) for x in seqs('asR', 3, minlen=3)]
     hs += [HH(x, tiers=('thorough',)) for x in t_serial] + [HH(x, conc=True, tiers=('thorough',)) for x in t_conc]
+    # a serial queue targeting a custom CONCURRENT queue: sync waiters handed off by the drainer are redirected onto the target (as readers if it has room, else queued behind its barrier)
+    import itertools
+    def oc(n):
+        out = []
+        for t in itertools.product(['a', 's', 'w', 'a1', 'b1', 'R'], repeat=n):
+            if t[0] == 'R' or t[-1] == 'R' or any(t[i] == 'R' and t[i + 1] == 'R' for i in range(n - 1)): continue
+            if not any(x in ('a', 's', 'w') for x in t) or not any(x in ('a1', 'b1') for x in t): continue
+            out.append(''.join(t))
+        return out
+    oc3 = oc(3); ocq = [x for x in oc3 if 's' in x.replace('a1', '').replace('b1', '') or 'w' in x] + ['ab1sR', 'ab1sa', 'ab1sb1', 'ab1B']
+    hs += [HH(x, bottomconc=True) for x in ocq] + [HH(x, bottomconc=True, tiers=('thorough',)) for x in oc3 + oc(4) if x not in ocq]
     return hs
 HARNESSES += _h(None, None)
